@@ -1,5 +1,7 @@
 package absint
 
+import "go/types"
+
 // NewHeap returns an empty heap for a root execution.
 func NewHeap() *Heap { return newHeap() }
 
@@ -29,3 +31,17 @@ func (in *Interp) NewCell(name string, v Value) (*Cell, PtrV) {
 
 // Nilness of an outcome value: 1 nil, 2 non-nil, 0 unknown.
 func Nilness(v Value) int { return nilness(v) }
+
+// SetMaxStates changes the per-block state bound for subsequent executions.
+func (in *Interp) SetMaxStates(n int) { in.Cfg.MaxStates = n }
+
+// JoinOutcomes joins outcomes into one (field-wise values, intersected facts).
+func (in *Interp) JoinOutcomes(g []Outcome, t types.Type) Outcome {
+	if len(g) == 1 {
+		return g[0]
+	}
+	return in.joinOutcomes(g, t)
+}
+
+// ValueString renders an abstract value (debugging).
+func ValueString(v Value) string { return valStr(v) }
